@@ -1199,6 +1199,8 @@ sexp sexp_make_uvector_op(sexp ctx, sexp self, sexp_sint_t n, sexp elt_type, sex
     return sexp_xtype_exception(ctx, self, "unknown uniform vector type", elt_type);
   if (elen < 0)
     return sexp_xtype_exception(ctx, self, "negative length", len);
+  if (elen > (SEXP_MAX_FIXNUM >> 8))   /* the size in bits must not overflow */
+    return sexp_xtype_exception(ctx, self, "length out of range", len);
   sexp_gc_preserve1(ctx, res);
   res = sexp_alloc_type(ctx, uvector, SEXP_UNIFORM_VECTOR);
   if (!sexp_exceptionp(res)) {
